@@ -42,8 +42,14 @@ RawPositionsOk(e) ==
     IN  /\ \A t \in 1..Len(ps) : ps[t] >= 0 /\ ps[t] < 1073741824
         /\ StrictlyIncreasing(ps)
 
+\* "nv" = 1 marks a huge input that is only measured (space events): its flat value is never
+\* needed, only its length and symbol counts, which are computed from the segments
+NoValue(e) == Has(e, "nv") /\ e.nv = 1
+SegsLen(segs) == LET F[j \in 0..Len(segs)] == IF j = 0 THEN 0 ELSE F[j - 1] + SegLen(segs[j]) IN F[Len(segs)]
+
 NewVal(e) ==
-    IF e.k = "newt" THEN (IF e.path = "default" THEN << >> ELSE Flat(e.segs))
+    IF NoValue(e) THEN << >>
+    ELSE IF e.k = "newt" THEN (IF e.path = "default" THEN << >> ELSE Flat(e.segs))
     ELSE IF e.k = "newq" THEN
         (IF e.path \in {"default", "qb_new", "qb_with_capacity"} THEN << >>
          ELSE LET F == Flat(e.segs) IN [q \in 1..Len(F) |-> SymMod4(e.alpha[F[q]])])
@@ -64,7 +70,7 @@ MaxId(alpha, used) ==
 TMeta == [L \in NewTLines |->
             LET e == Rec[L]
                 used == IF e.path = "default" THEN {} ELSE UsedIds(e.segs)
-            IN  [n |-> Len(Val[L]), used |-> used,
+            IN  [n |-> IF NoValue(e) THEN SegsLen(e.segs) ELSE Len(Val[L]), used |-> used,
                  maxsym |-> IF used = {} THEN <<0>> ELSE e.alpha[MaxId(e.alpha, used)]]]
 
 ---------------------------------------------------------------------------
@@ -352,7 +358,7 @@ NewObj ==
            cls == (IF fam = "T" THEN TreeFamOf(e.kind) ELSE e.kind) \o ".new." \o
                   (IF rawbad THEN "bad_positions"
                    ELSE IF e.path = "default" THEN "default"
-                   ELSE IF Len(Val[l]) = 0 THEN "empty"
+                   ELSE IF Len(Val[l]) = 0 /\ ~NoValue(e) THEN "empty"
                    ELSE IF fam = "T" /\ Cardinality(TMeta[l].used) = 1 THEN "single_symbol"
                    ELSE IF fam = "T" THEN "gen" \o WidthClass(TMeta[l].maxsym)
                    ELSE "gen")
@@ -376,9 +382,12 @@ QGrid ==
        IN  IF Live(e.o) THEN Advance(Merge(<<Grid(e, objs[e.o], e.m, e.out), IdxRes(e)>>), objs)
            ELSE Advance(ResOk(0, {}), objs)
 
+\* equality of two logged outcomes of possibly different shape (a panic code against a matrix)
+SameVal(a, b) == ToJson(a) = ToJson(b)
+
 \* relational events: two outcome matrices that must be identical
 RelRes(e, o, tag, a, b) ==
-    IF a = b THEN ResOk(1, {tag}) ELSE ResBad(Mis(e, o, tag, 0, 0, a, {b}), {tag})
+    IF SameVal(a, b) THEN ResOk(1, {tag}) ELSE ResBad(Mis(e, o, tag, 0, 0, a, {b}), {tag})
 
 RelM ==
     /\ IsEv("relm")
@@ -427,7 +436,7 @@ Uq ==
            ELSE LET o == objs[e.o]
                     K == 1..Len(e.out)
                     illegal == {j \in K : ~UqPre(e, o, j)}
-                    bad == {j \in K : e.out[j] # e.chk[j]}
+                    bad == {j \in K : ~SameVal(e.out[j], e.chk[j])}
                     vec == e.m = "get_bits_unchecked" \/ (o.fam = "T" /\ e.m = "get_unchecked")
                     \* one report for "the checked twin gave None" and one for any other disagreement
                     NoneChk(j) == IF vec THEN e.chk[j] = <<NONE>> ELSE e.chk[j] = NONE
@@ -538,7 +547,7 @@ Thr ==
     /\ LET e == Ev
        IN  IF ~Live(e.o) THEN Advance(ResOk(0, {}), objs)
            ELSE LET o == objs[e.o]
-                    bad == {t \in 1..Len(e.outs) : e.outs[t] # e.seq[1]}
+                    bad == {t \in 1..Len(e.outs) : ~SameVal(e.outs[t], e.seq[1])}
                     t0 == CHOOSE t \in bad : TRUE
                 IN  Advance(IF bad = {} THEN ResOk(Len(e.outs), {"thr.same_as_sequential"})
                             ELSE ResBad(Mis(e, o, "thr.same_as_sequential", 0, t0, e.outs[t0], {e.seq[1]}),
@@ -551,7 +560,7 @@ Pure ==
            ELSE LET o == objs[e.o]
                     r1 == IF e.same \in {1, NA} THEN ResOk(1, {"pure.serialized_form"})
                           ELSE ResBad(Mis(e, o, "pure.serialized_form", 0, 0, e.same, {1}), {"pure.serialized_form"})
-                    r2 == IF e.out1 = e.out2 THEN ResOk(1, {"pure.repeatable"})
+                    r2 == IF SameVal(e.out1, e.out2) THEN ResOk(1, {"pure.repeatable"})
                           ELSE ResBad(Mis(e, o, "pure.repeatable", 0, 0, e.out2, {e.out1}), {"pure.repeatable"})
                 IN  Advance(Merge(<<r1, r2>>), objs)
 
@@ -574,7 +583,7 @@ SpaceEv ==
     /\ LET e == Ev
        IN  IF ~Live(e.o) \/ objs[e.o].line = 0 THEN Advance(ResOk(0, {}), objs)
            ELSE LET o == objs[e.o]
-                    n == Len(SeqOf(o))
+                    n == IF NoValue(Rec[o.line]) THEN SegsLen(Rec[o.line].segs) ELSE Len(SeqOf(o))
                     kind == o.kind
                     isT == o.fam = "T"
                     fam == IF isT THEN TreeFamOf(kind) ELSE kind
@@ -602,8 +611,8 @@ SpaceEv ==
                     hb == IF huff THEN HuffHeapBound(kind, e.lens, maxint) ELSE 0
                     hf == IF ~huff \/ n = 0 THEN << >>
                           ELSE <<Check(e, o, "space.huff.entropy." \o fam,
-                                       64 * ld <= NH0Hi64(n, cnts) + 64 * HuffFrag(kind) * n,
-                                       ld, {NH0Hi64(n, cnts) \div 64, HuffFrag(kind) * n}),
+                                       ld <= NH0HiBits(n, cnts) + HuffFrag(kind) * n,
+                                       ld, {NH0HiBits(n, cnts), HuffFrag(kind) * n}),
                                  Check(e, o, "space.huff.not_above_plain." \o fam,
                                        ld <= PlainLevelBits(kind, n, mx), ld, {PlainLevelBits(kind, n, mx)})>>
                                 \o (IF hasheap THEN <<Check(e, o, "space.huff.heap." \o fam, e.heap <= hb, e.heap, {hb})>> ELSE << >>)
